@@ -91,7 +91,7 @@ def plan(ctx: Ctx):
         for backend in ("duckdb", "sqlite"):
             for lt in ("dedupe_only", "link_only"):
                 for retain in (False, True):
-                    for _rep in range(2 if backend == "duckdb" else 1):
+                    for _rep in range(2 if (backend, lt) == ("duckdb", "dedupe_only") else 1):
                         out.append((X.gen_config(rng, backend, lt, retain, i), lambda sc: True, 1))
                         i += 1
     return out
